@@ -57,6 +57,9 @@ pub enum IdxDelta {
     AddEmb,
     DropEmb,
     AddName,
+    /// one open callback that creates one index (with backfill) and removes another
+    AddEmbDropTags,
+    AddBodyDropName,
 }
 
 impl IdxDelta {
@@ -70,6 +73,14 @@ impl IdxDelta {
             IdxDelta::AddEmb => i.emb = true,
             IdxDelta::DropEmb => i.emb = false,
             IdxDelta::AddName => i.name = true,
+            IdxDelta::AddEmbDropTags => {
+                i.emb = true;
+                i.tags = false;
+            }
+            IdxDelta::AddBodyDropName => {
+                i.body = true;
+                i.name = false;
+            }
         }
         i
     }
@@ -528,7 +539,7 @@ impl SeqModel {
             // creating the vector index backfills it: a stored vector of another
             // dimension (written while no vector index existed) legitimately makes
             // the creation fail
-            Op::ReopenWith(IdxDelta::AddEmb) if !idx.emb && self.docs.docs.values().any(|d| d.emb.len() != crate::fixture::DIM) => {
+            Op::ReopenWith(IdxDelta::AddEmb | IdxDelta::AddEmbDropTags) if !idx.emb && self.docs.docs.values().any(|d| d.emb.len() != crate::fixture::DIM) => {
                 Expect::Rejected(vec!["Other"])
             }
             Op::Get(id) => match self.docs.docs.get(id) {
